@@ -327,6 +327,9 @@ def _run_compile(env, ctx, op, path):
         env.count('name_reuse')
     chain = (parent.chain if parent is not None else ()) + (op['desc'],)
     env.handles[op['mod']] = Handle(op['mod'], m, chain, op.get('name'))
+    if m is not None and env.sim is not None:
+        for c in generated_codes(m):
+            env.sim.hot |= mon.hot_lines(c, vars(m))
     return {'path': list(path), 'out': out, 'fired': [], 'nested': [],
             'steps': (task.local - start) if task is not None else 0}
 
